@@ -1,10 +1,12 @@
 // verif-extract-lockset: reads the current sources of package kcp and emits the lock / access
 // summary of every thread root as control-flow graphs over
-//   Acq m | Rel m | RAcq m | RRel m | Rd x | Wr x | At x | Tau
+//
+//	Acq m | Rel m | RAcq m | RRel m | Rd x | Wr x | At x | Tau
+//
 // into coq/lockset/GenAccess.v (and a JSON side file with the access sites, for the race
 // harness).  Fails (exit 1) on every construct it does not recognise.
 //
-//   verif-extract-lockset <repo> <out.v> <out.json>
+//	verif-extract-lockset <repo> <out.v> <out.json>
 package main
 
 import (
